@@ -119,9 +119,23 @@ def run_gcno_part(chk):
     else:
         cases += large_sweep(chk.rng, 6, 12, 1500)
     impl = G.run_guarded(cases, chk.pid)
+    # gcda words that are the identifier of a FUNCTION record, and the identifiers each gcno announces: substituting an
+    # identifier the gcno does not have must be an error (never counts attributed to another function)
+    ident_pos, known_ids = {}, {}
+    import cgen
+    for pair in G.SMALL + G.GCC:
+        g, d = G.fixture(pair)
+        lab = os.path.basename(pair[0])
+        for lab_, g_, d_ in ((lab, g, d),) + (((lab + "-be", cgen.to_big_endian_gcno(g), cgen.to_big_endian_gcda(d)),) if pair in G.SMALL[:2] else ()):
+            try:
+                ident_pos[lab_] = {i for i, _v in G.function_idents(d_)}
+                known_ids[lab_] = G.gcno_idents_scan(g_)
+            except Exception:
+                pass
     dist = {"cases": len(cases), "ok": 0, "err": 0, "prefix": 0, "word": 0, "multi": 0, "max_ms": 0, "gcda_prefix_ok": 0, "model_cases": 0, "model_outoffuel": 0}
     full = {}
-    for c, r in zip(cases, impl):
+    forced = []
+    for ci, (c, r) in enumerate(zip(cases, impl)):
         chk.count()
         k = G.klass(r)
         dist[c["mut"][2]] += 1
@@ -134,6 +148,13 @@ def run_gcno_part(chk):
             chk.violation({"kind": "oracle", "engine": "gcno", "case": c, "impl": r,
                            "clause": "reading a gcno/gcda byte string ends in a result or an error value (no panic, abort, stack overflow, address-space exhaustion at 1 GiB, or hang)"}, tag="crash")
             continue
+        m = c["mut"]
+        if m[1] == "gcda" and m[2] == "word" and m[0] in ident_pos and m[3] in ident_pos[m[0]] and m[4] not in known_ids[m[0]]:
+            dist["foreign_ident"] = dist.get("foreign_ident", 0) + 1
+            forced.append(ci)
+            if k == "ok":
+                chk.violation({"kind": "oracle", "engine": "gcno", "case": c, "impl": r,
+                               "clause": "a gcda record for a function the gcno does not describe is an error, never a result (counts must not be attributed to another function)"}, tag="ident")
         # a truncated gcda gives an error or counts that were in the file
         if c["mut"][1] == "gcda" and c["mut"][2] == "prefix" and k == "ok":
             key = c["gcno"][:64] + str(len(c["gcno"]))
@@ -156,6 +177,7 @@ def run_gcno_part(chk):
     # outcome class of the model on a sample of the stream (small inputs only)
     small = [i for i, c in enumerate(cases) if len(c["gcno"]) <= 4000 and all(len(g) <= 2000 for g in c["gcdas"])]
     sel = chk.rng.sample(small, min(len(small), 700 if quick else 2500))
+    sel = sorted(set(sel) | set(forced[:300]))          # the foreign-identifier cases are always compared with the model
     model = G.run_model(chk.pid, [cases[i] for i in sel], fn="class_gcno", shard_size=120)
     dis = []
     for i, rm in zip(sel, model):
